@@ -578,6 +578,195 @@ Example process_history_example :
   = ROut (Some (B "T:x")).
 Proof. vm_compute. reflexivity. Qed.
 
+(* ---- loading: the template stored under a name is the translation of that file alone ---- *)
+Section LoadingProofs.
+  Variable src tpl : Type.
+  Variable translate : src -> tpl.
+
+  Lemma lookup_load : forall (files : list (bytes * src)) n,
+    lookup n (load src tpl translate files) = option_map translate (lookup n files).
+  Proof.
+    induction files as [|[k v] r IH]; intros n; simpl; [reflexivity|].
+    destruct (beqb n k); [reflexivity|apply IH].
+  Qed.
+
+  (* two directories that hold the same file under a name - whatever else they hold, in whatever order *)
+  Lemma load_sibling_independent (files files' : list (bytes * src)) n :
+    lookup n files = lookup n files' ->
+    lookup n (load src tpl translate files) = lookup n (load src tpl translate files').
+  Proof. intros H. rewrite !lookup_load, H. reflexivity. Qed.
+
+  (* the listing order: any permutation of a listing with pairwise distinct names *)
+  Lemma lookup_in_nodup {A} : forall (l : list (bytes * A)) n v,
+    NoDup (map fst l) -> In (n, v) l -> lookup n l = Some v.
+  Proof.
+    induction l as [|[k w] r IH]; intros n v Hnd Hin; simpl in *; [contradiction|].
+    inversion Hnd as [|? ? Hk Hr]; subst.
+    destruct Hin as [Heq|Hin].
+    - inversion Heq; subst. rewrite beqb_refl. reflexivity.
+    - destruct (beqb n k) eqn:E.
+      + apply beqb_eq in E. subst. exfalso. apply Hk. apply in_map_iff. exists (k, v). split; [reflexivity|assumption].
+      + apply IH; assumption.
+  Qed.
+
+  Lemma lookup_none_notin {A} : forall (l : list (bytes * A)) n,
+    lookup n l = None -> ~ In n (map fst l).
+  Proof.
+    induction l as [|[k w] r IH]; intros n H; simpl in *; [tauto|].
+    destruct (beqb n k) eqn:E; [discriminate|].
+    intros [Hk|Hin]; [subst; rewrite beqb_refl in E; discriminate|exact (IH _ H Hin)].
+  Qed.
+
+  Lemma lookup_some_in {A} : forall (l : list (bytes * A)) n v, lookup n l = Some v -> In (n, v) l.
+  Proof.
+    induction l as [|[k w] r IH]; intros n v H; simpl in *; [discriminate|].
+    destruct (beqb n k) eqn:E.
+    - apply beqb_eq in E. inversion H; subst. left. reflexivity.
+    - right. apply IH. exact H.
+  Qed.
+
+  Lemma lookup_perm {A} (l l' : list (bytes * A)) n :
+    NoDup (map fst l) -> Permutation l l' -> lookup n l = lookup n l'.
+  Proof.
+    intros Hnd Hp.
+    assert (Hnd' : NoDup (map fst l')) by (eapply Permutation_NoDup; [apply Permutation_map; exact Hp|exact Hnd]).
+    destruct (lookup n l) as [v|] eqn:E.
+    - symmetry. apply lookup_in_nodup; [exact Hnd'|].
+      eapply Permutation_in; [exact Hp|]. apply lookup_some_in. exact E.
+    - destruct (lookup n l') as [v'|] eqn:E'; [|reflexivity].
+      exfalso. apply (lookup_none_notin _ _ E).
+      apply in_map_iff. exists (n, v'). split; [reflexivity|].
+      eapply Permutation_in; [apply Permutation_sym; exact Hp|]. apply lookup_some_in. exact E'.
+  Qed.
+
+  Lemma load_order_independent (files files' : list (bytes * src)) n :
+    NoDup (map fst files) -> Permutation files files' ->
+    lookup n (load src tpl translate files) = lookup n (load src tpl translate files').
+  Proof. intros Hnd Hp. apply load_sibling_independent. apply lookup_perm; assumption. Qed.
+
+  (* ... and so is the answer: engines loaded from two directories that hold the same file under the
+     requested name - alone or among any siblings, listed in any order - after any histories *)
+  Variable exec_state : Type.
+  Variable new_exec : tpl -> gdata -> exec_state.
+  Variable run_exec : exec_state -> exec_state.
+  Variable output : exec_state -> option bytes.
+  Notation step := (step tpl exec_state new_exec run_exec output).
+  Notation run := (run tpl exec_state new_exec run_exec output).
+
+  Lemma step_resp_lookup e e' r :
+    lookup (rq_name r) (templates tpl e) = lookup (rq_name r) (templates tpl e') ->
+    snd (step e r) = snd (step e' r).
+  Proof. unfold Purity.step. intros ->. destruct (lookup _ _); reflexivity. Qed.
+
+  Lemma sibling_independent (files files' : list (bytes * src)) st st' rs rs' n d :
+    lookup n files = lookup n files' ->
+    resp tpl (run (mk_engine tpl (load src tpl translate files) st) (rs ++ [mk_request n d]))
+    = resp tpl (run (mk_engine tpl (load src tpl translate files') st') (rs' ++ [mk_request n d])).
+  Proof.
+    intros H. unfold Purity.run, resp. rewrite !fold_left_app. simpl.
+    apply step_resp_lookup. simpl.
+    rewrite (run_templates tpl exec_state new_exec run_exec output rs (_, RNone)).
+    rewrite (run_templates tpl exec_state new_exec run_exec output rs' (_, RNone)). simpl.
+    apply load_sibling_independent. exact H.
+  Qed.
+End LoadingProofs.
+
+(* non-vacuity: the cart page alone and next to the product page, both defining `item` *)
+Definition mx_product : mx_src := ([(B "item", B "PRODUCT")], [B "item"]).
+Definition mx_cart : mx_src := ([(B "item", B "CART")], [B "item"; B "badge"]).
+Example load_example :
+  lookup (B "cart") (load mx_src (list bytes) mx_translate [(B "product", mx_product); (B "cart", mx_cart)])
+  = Some [B "CART"; []]
+  /\ lookup (B "cart") (load mx_src (list bytes) mx_translate [(B "cart", mx_cart)]) = Some [B "CART"; []].
+Proof. vm_compute. split; reflexivity. Qed.
+
+(* with ONE translator for the directory the statement is false: what is stored under a name depends on
+   the siblings and on the listing order *)
+Lemma shared_translator_refuted :
+  exists (files files' : list (bytes * mx_src)) n,
+    NoDup (map fst files) /\ Permutation files files' /\
+    lookup n (load_shared mx_src (list bytes) (list (bytes * bytes)) mx_translate_st [] files)
+    <> lookup n (load_shared mx_src (list bytes) (list (bytes * bytes)) mx_translate_st [] files')
+    /\ lookup n (load_shared mx_src (list bytes) (list (bytes * bytes)) mx_translate_st [] files)
+       <> lookup n (load_shared mx_src (list bytes) (list (bytes * bytes)) mx_translate_st [] [(B "cart", mx_cart)]).
+Proof.
+  exists [(B "product", mx_product); (B "cart", mx_cart)], [(B "cart", mx_cart); (B "product", mx_product)], (B "cart").
+  split; [|split; [apply perm_swap|split; vm_compute; discriminate]].
+  constructor; [|constructor; [intros []|constructor]].
+  intros [H|[]]. vm_compute in H. discriminate.
+Qed.
+
+(* ---- results: a reader returns the bytes of its render whenever it is read ---- *)
+Section ResultProofs.
+  Variable tpl : Type.
+  Variable exec_state : Type.
+  Variable new_exec : tpl -> gdata -> exec_state.
+  Variable run_exec : exec_state -> exec_state.
+  Variable output : exec_state -> option bytes.
+  Notation pstep := (pstep tpl exec_state new_exec run_exec output).
+  Notation prun := (prun tpl exec_state new_exec run_exec output).
+  Notation rstep := (rstep tpl exec_state new_exec run_exec output).
+  Notation rrun := (rrun tpl exec_state new_exec run_exec output).
+
+  (* invariant of rrun: the buffers allocated so far keep their content, the engines go the way of prun *)
+  Lemma rrun_spec : forall irs (s : rproc tpl) (last : response),
+    rp_engines tpl (rrun s irs) = fst (fold_left (fun s ir => pstep (fst s) ir) irs (rp_engines tpl s, last))
+    /\ exists more, rp_bufs tpl (rrun s irs) = rp_bufs tpl s ++ more /\ length more = length irs.
+  Proof.
+    induction irs as [|ir irs IH]; intros s last; simpl.
+    - split; [reflexivity|]. exists []. rewrite app_nil_r. split; reflexivity.
+    - destruct (IH (rstep s ir) (snd (pstep (rp_engines tpl s) ir))) as [He [more [Hb Hl]]].
+      split.
+      + unfold Purity.rrun in *. rewrite He. unfold Purity.rstep at 1. simpl.
+        rewrite <- surjective_pairing. reflexivity.
+      + exists (snd (pstep (rp_engines tpl s) ir) :: more). split; [|simpl; rewrite Hl; reflexivity].
+        unfold Purity.rrun in *. rewrite Hb. simpl. rewrite <- app_assoc. reflexivity.
+  Qed.
+
+  (* the result of request (i, r), made after irs, read after any further renders [later] *)
+  Lemma late_read (p : process tpl) bufs irs i r later :
+    rread tpl (rrun (mk_rproc tpl p bufs) (irs ++ (i, r) :: later)) (length bufs + length irs)
+    = Some (presp tpl (prun p (irs ++ [(i, r)]))).
+  Proof.
+    unfold Purity.rrun, rread. rewrite fold_left_app. simpl.
+    destruct (rrun_spec irs (mk_rproc tpl p bufs) RNone) as [He [more [Hb Hl]]]. simpl in *.
+    unfold Purity.rrun in *.
+    set (s1 := fold_left rstep irs (mk_rproc tpl p bufs)) in *.
+    destruct (rrun_spec later (rstep s1 (i, r)) RNone) as [_ [more2 [Hb2 _]]].
+    unfold Purity.rrun in Hb2. rewrite Hb2. unfold Purity.rstep at 1. simpl.
+    rewrite Hb. rewrite <- !app_assoc.
+    rewrite nth_error_app2 by lia. rewrite nth_error_app2 by lia.
+    replace (length bufs + length irs - length bufs - length more) with 0 by lia. simpl.
+    unfold Purity.prun, presp. rewrite fold_left_app. simpl. rewrite He. reflexivity.
+  Qed.
+
+  (* ... is what the request is answered by any engine with the same templates, in any process, after any history *)
+  Lemma late_read_independent (p p' : process tpl) bufs irs irs' later i j r :
+    option_map (templates tpl) (nth_error p i) = option_map (templates tpl) (nth_error p' j) ->
+    rread tpl (rrun (mk_rproc tpl p bufs) (irs ++ (i, r) :: later)) (length bufs + length irs)
+    = Some (presp tpl (prun p' (irs' ++ [(j, r)]))).
+  Proof.
+    intros H. rewrite late_read. f_equal.
+    apply process_history_independent. exact H.
+  Qed.
+End ResultProofs.
+
+(* with one recycled buffer the statement is false: the first result, read after a second render *)
+Lemma pooled_buffer_refuted :
+  exists (p : process bytes) (r1 r2 : nat * request),
+    let new_exec := fun (t : bytes) (d : gdata) => t in
+    let run_exec := fun (s : bytes) => s in
+    let output := fun (s : bytes) => Some s in
+    rread_pooled bytes (rrun_pooled bytes bytes new_exec run_exec output (mk_rproc bytes p []) [r1; r2]) 0
+    <> Some (presp bytes (prun bytes bytes new_exec run_exec output p [r1]))
+    /\ rread bytes (rrun bytes bytes new_exec run_exec output (mk_rproc bytes p []) [r1; r2]) 0
+       = Some (presp bytes (prun bytes bytes new_exec run_exec output p [r1])).
+Proof.
+  exists [mk_engine bytes [(B "a", B "<p>alice</p>"); (B "b", B "<p>carol</p>")] []],
+         (0, mk_request (B "a") GNil), (0, mk_request (B "b") GNil).
+  split; vm_compute; [discriminate|reflexivity].
+Qed.
+
 (* ======================================================================== (c) aliasing *)
 
 Definition fresh (n0 : nat) (v : mval) : Prop := match v with MRef a => n0 <= a | _ => True end.
